@@ -11,7 +11,7 @@
     - [path_append base [c1..cn]] : base/c1/../cn - "inside base at depth n";
     - [cv a b]         : a and b differ only in the case of ASCII letters. *)
 From Coq Require Import List NArith Bool.
-From V Require Import Common.Bytes Names.Path Names.Model Names.PathProofs Names.Proofs Names.Confine Names.Fold Names.Main.
+From V Require Import Common.Bytes Names.Path Names.Model Names.PathProofs Names.Proofs Names.Confine Names.Fold Names.Existing Names.Main.
 Import ListNotations.
 Open Scope N_scope.
 
@@ -239,3 +239,50 @@ Theorem C13_display_shortest : forall h n m t,
   m_is_fq n' = true /\ cv_m n' (MkM h n m t) /\ mM n' = m /\ mT n' = t.
 Proof. exact m_display_shortest_parse. Qed.
 Print Assumptions C13_display_shortest.
+
+(** * 5. the legacy case-insensitive lookup (server/routes.go getExistingName) *)
+
+(** as repaired by fixes/C04-getExistingName.patch (owned by C04): the lookup never changes a name into one that is
+    not EqualFold to it ... *)
+Theorem C13_lookup_equalfold : forall existing n, m_is_fq n = true -> cv_m (get_existing_name existing n) n.
+Proof. exact get_existing_cv. Qed.
+Print Assumptions C13_lookup_equalfold.
+
+(** ... and case variants of a stored name are canonicalised to one and the same stored name, for every order (and
+    multiplicity) in which the map of stored names is visited: [l1], [l2] are any two enumerations of the store *)
+Theorem C13_casefold_legacy_lookup : forall l1 l2 n1 n2,
+  (forall e, In e l1 <-> In e l2) -> Forall (fun e => m_is_fq e = true) l1 ->
+  m_is_fq n1 = true -> cv_m n1 n2 ->
+  (exists e, In e l1 /\ m_equal_fold e n1 = true) ->
+  let r := get_existing_name l1 n1 in
+  r = get_existing_name l2 n2 /\ In r l1 /\ m_equal_fold r n1 = true.
+Proof. exact get_existing_same. Qed.
+Print Assumptions C13_casefold_legacy_lookup.
+
+Example C13_casefold_legacy_lookup_nonvacuous :
+  let a := MkM [104] [110] [77] [116] in let b := MkM [104] [120] [109] [117] in
+  get_existing_name [a; b] (MkM [72] [110] [109] [116]) = a /\ get_existing_name [b; a] (MkM [104] [78] [109] [84]) = a.
+Proof. vm_compute. split; reflexivity. Qed.
+
+(** the unchanged tree (no patch): a stored name, looked up by its exact spelling, can be rewritten to a name that
+    is not stored, depending on the order of the map iteration *)
+Definition C13_casefold_legacy_unrepaired_full : Prop :=
+  forall existing n, Forall (fun e => m_is_fq e = true) existing -> m_is_fq n = true ->
+    (exists e, In e existing /\ m_equal_fold e n = true) -> In (get_existing_name_legacy existing n) existing.
+
+Theorem C13_casefold_legacy_unrepaired_refuted : ~ C13_casefold_legacy_unrepaired_full.
+Proof. exact main_C13_casefold_legacy_unrepaired_refuted. Qed.
+Print Assumptions C13_casefold_legacy_unrepaired_refuted.
+
+(** what does hold on the unchanged tree: if no other stored name spells a matching part differently from the stored
+    case variant [estar] (decidable guard [legacy_guard]), the lookup returns [estar], for every order *)
+Theorem C13_casefold_legacy_unrepaired_partial : forall existing n estar,
+  m_is_fq n = true -> m_is_fq estar = true -> In estar existing -> legacy_guard existing n estar = true ->
+  get_existing_name_legacy existing n = estar.
+Proof. exact legacy_partial. Qed.
+Print Assumptions C13_casefold_legacy_unrepaired_partial.
+
+Example C13_casefold_legacy_unrepaired_partial_nonvacuous :
+  let a := MkM [104] [110] [77] [116] in let b := MkM [104] [120] [122] [117] in
+  legacy_guard [a; b] (MkM [72] [110] [109] [116]) a = true /\ m_is_fq a = true.
+Proof. vm_compute. split; reflexivity. Qed.
